@@ -41,6 +41,24 @@ for pid, rules in props.PROPERTY_RULES.items():
 
 path = os.path.join(ROOT, "DESIGN.md")
 text = open(path, encoding="utf8").read()
+
+# ---- section 0: overview table
+VERDICT = {
+    "C01": "**3 genuine defects** (F1 F2 F3) → fixed",
+    "C02": "**1 defect** (F4) → fixed",
+    "C03": "**1 defect** (F5) → fixed",
+    "C04": "F1 F4 F5 (shared)",
+    "C05": "F3 F6 (shared)",
+    "C12": "**1 defect** (F7) → fixed",
+    "C15": "**1 defect** (F8) → fixed",
+    "C16": "**1 defect** (F6) → fixed",
+}
+rows = ["| id | claim | rules (§3), scoped to the code the property is about | verdict on pinned tree (§9) |", "|----|-------|-----------|------------------------------|"]
+for pid, rules in props.PROPERTY_RULES.items():
+    rows.append(f"| {pid} | partial | {', '.join(r for r, _s in rules)} | {VERDICT.get(pid, 'holds')} |")
+t0 = text.index("| id | claim |", text.index("## 0. Overview table"))
+t1 = text.index('"partial" always means', t0)
+text = text[:t0] + "\n".join(rows) + "\n\n" + text[t1:]
 start = text.index("### C01 ", text.index("## 4. Per-property decisions"))
 end = text.index("## 5. Verdict protocol")
 sep = "---------------------------------------------------------------------------\n\n"
